@@ -877,3 +877,8 @@ Qed.
 (* The numbers named in the classification theorems are unique for a given string. *)
 Lemma C03_wft_unique s bs bs' : WellFormedText s bs -> WellFormedText s bs' -> bs = bs'.
 Proof. exact (wft_unique s bs bs'). Qed.
+
+(* Alias used by the message-layer proofs. *)
+Lemma decode_encode_roundtrip :
+  forall f, wf_frame f -> decode (encode f) = Ok f /\ decode (encode_nl f) = Ok f.
+Proof. exact C01_roundtrip. Qed.
